@@ -3,10 +3,12 @@
 package filtering
 
 import (
+	"fmt"
 	"math/rand/v2"
 	"net/netip"
 	"strings"
 	"testing"
+	"time"
 
 	"github.com/AdguardTeam/AdGuardHome/internal/vutil"
 )
@@ -17,8 +19,19 @@ import (
 // idle).  The table goes through the real prepareRewrites/normalize.
 
 var (
+	c06T     *testing.T
 	c06D     *DNSFilter
 	c06Setts *Settings
+	c06Hangs int
+)
+
+// c06Deadline bounds one case (normally microseconds).  A case that does not
+// return is reported as HANG; its goroutine keeps the old DNSFilter (and its
+// read lock), so a fresh one is built.  After c06MaxHangs the remaining cases
+// are skipped.
+const (
+	c06Deadline = 5 * time.Second
+	c06MaxHangs = 3
 )
 
 func c06Fmt(res Result) (out []string) {
@@ -57,7 +70,32 @@ func c06Run(f []string) []string {
 	host := vutil.Unhex(f[2+4*n])
 	qt := uint16(vutil.Atoi(f[3+4*n]))
 
+	if c06Hangs >= c06MaxHangs {
+		return []string{"SKIP"}
+	}
 	d := c06D
+	ch := make(chan []string, 1)
+	go func() {
+		defer func() {
+			if v := recover(); v != nil {
+				ch <- []string{"PANIC", vutil.Hex(fmt.Sprint(v))}
+			}
+		}()
+		ch <- c06Do(d, rws, host, qt)
+	}()
+	select {
+	case out := <-ch:
+		return out
+	case <-time.After(c06Deadline):
+		c06Hangs++
+		c06D, c06Setts = newForTest(c06T, nil, nil)
+
+		return []string{"HANG"}
+	}
+}
+
+// c06Do runs the implementation on one case.
+func c06Do(d *DNSFilter, rws []*LegacyRewrite, host string, qt uint16) []string {
 	d.confMu.Lock()
 	d.conf.Rewrites = rws
 	d.confMu.Unlock()
@@ -328,7 +366,7 @@ func c06Gen(r *rand.Rand, emit vutil.Emit) {
 }
 
 func TestVerifC06(t *testing.T) {
+	c06T = t
 	c06D, c06Setts = newForTest(t, nil, nil)
-	t.Cleanup(c06D.Close)
 	vutil.Main(t, c06Gen, c06Run)
 }
